@@ -16,7 +16,8 @@ RULE = (
     "assembler returned for that invocation. non-trivial = apply() returned "
     "with >=1 edit and >=1 expression or annotation compared; distinct = "
     "distinct shape signatures. Patch operands carry addends (also on "
-    "ARM64 pc-relative literal loads)."
+    "ARM64 pc-relative literal loads). 20% of the modules start without "
+    "a symbolicExpressionSizes table (patch-created entries only)."
 )
 ASSUMPTIONS = [
     "annotations keyed at offset == block size are not generated (they annotate no byte)",
@@ -26,7 +27,15 @@ BUDGET = {"quick": (6000, 40), "thorough": (250000, 540)}
 REQUIRED_COUNTERS = ["applies", "expressions_compared",
                      "annotations_compared", "patch_expressions_compared"]
 
-gen_case = rwbase.gen_case
+
+
+def gen_case(rng, tier, index):
+    case = rwbase.gen_case(rng, tier, index)
+    if rng.random() < 0.2:
+        # a module that has no symbolicExpressionSizes table: the sizes of
+        # what patches add must still be recorded, for every patch
+        case["no_expr_sizes_table"] = True
+    return case
 
 
 def run_case(case):
